@@ -50,6 +50,32 @@ def mk_diag(d):
 def words(s):
     return s.split()
 
+KNOWN_SPLITS = []
+
+def same_words(got, want):
+    """True if the rendered words are the expected words.  Recorded deviation (open finding
+    C29-overlong-words-are-split), recognised exactly: a word longer than the line width W of the block
+    (60 for labels, 80 for messages) appears as consecutive pieces — the rest of the current line, then full lines of W characters, then
+    the remainder — whose concatenation is the word — then the comparison succeeds and the occurrence is counted."""
+    i, splits = 0, []
+    for w in want:
+        if i < len(got) and got[i] == w:
+            i += 1; continue
+        ok = False
+        j, acc, pieces = i, "", []
+        while acc != w and j < len(got) and w.startswith(acc + got[j]):
+            acc += got[j]; pieces.append(got[j]); j += 1
+        for W in (60, 80):
+            # textwrap fills what is left of the current line, then full lines, then the remainder
+            if acc == w and len(w) > W and len(pieces) >= 2 and len(pieces[0]) <= W and len(pieces[-1]) <= W and all(len(p_) == W for p_ in pieces[1:-1]):
+                i = j; splits.append((w, W)); ok = True; break
+        if not ok:
+            return False
+    if i != len(got):
+        return False
+    KNOWN_SPLITS.extend(splits)
+    return True
+
 def check_render(lines, d):
     sm = SourceMap(); sm.sources["f"] = list(lines)
     r = DiagnosticsRenderer(sm)
@@ -76,7 +102,7 @@ def check_buffer(lines, d, buf):
             return None if take().strip() == "" else f"{what}: expected an empty line"
         while pos < len(buf) and buf[pos] != "":
             got.append(buf[pos]); pos += 1
-        if words(" ".join(got)) != words(expected_text):
+        if not same_words(words(" ".join(got)), words(expected_text)):
             return f"{what}: words {words(' '.join(got))!r} != {words(expected_text)!r}"
         return None
     try:
@@ -121,7 +147,7 @@ def check_buffer(lines, d, buf):
                     nonlocal pos
                     while pos < len(buf) and buf[pos] != "" and buf[pos] != bar and buf[pos].startswith(bar) and buf[pos][len(bar):].startswith(" " * (len(prefix_str) + 1)):
                         got.append(buf[pos][len(bar):]); pos += 1
-                    if words(" ".join(got)) != words(label or ""): return f"label words {words(' '.join(got))!r} != {words(label or '')!r}"
+                    if not same_words(words(" ".join(got)), words(label or "")): return f"label words {words(' '.join(got))!r} != {words(label or '')!r}"
                     if rest and not rest.startswith(" "): return f"label glued to the markers: {ln!r}"
                     return None
                 if sl == el:
